@@ -33,7 +33,7 @@ func init() { props["C15"] = runC15 }
 // supply kinds for a lookup through the manager
 var c15Supplies = []string{"val", "err", "absent", "typednil", "nilnil"}
 
-func newRI(svc, method string, tag string, grpc bool) rpcinfo.RPCInfo {
+func newRI(svc, method string, tag string, grpc bool, initMs ...int) rpcinfo.RPCInfo {
 	tags := map[string]string{}
 	if tag != "" {
 		tags[xdssuite.RouterClusterKey] = tag
@@ -42,6 +42,10 @@ func newRI(svc, method string, tag string, grpc bool) rpcinfo.RPCInfo {
 	cfg := rpcinfo.NewRPCConfig()
 	if grpc {
 		_ = rpcinfo.AsMutableRPCConfig(cfg).SetTransportProtocol(transport.GRPC)
+	}
+	// the call may already carry a timeout of its own (client option): the routing step replaces it by the matched route's
+	if len(initMs) > 0 && initMs[0] > 0 {
+		_ = rpcinfo.AsMutableRPCConfig(cfg).SetRPCTimeout(time.Duration(initMs[0]) * time.Millisecond)
 	}
 	return rpcinfo.NewRPCInfo(nil, to.ImmutableView(), rpcinfo.NewInvocation("svc", method, "pkg"), cfg, nil)
 }
@@ -96,6 +100,9 @@ func runC15(c *ctx) {
 		mkRoute := func() *gRoute {
 			g.seq++
 			rt := &gRoute{Kind: "http", Prefix: "/", TimeoutMs: 100 + g.seq}
+			if r.chance(30) {
+				rt.TimeoutMs = 0 // a route without a timeout of its own: the call's timeout becomes zero (none)
+			}
 			if r.chance(25) {
 				rt.Prefix = "/nomatch"
 			}
@@ -188,7 +195,12 @@ func runC15(c *ctx) {
 		if r.chance(40) {
 			step = "key"
 		}
-		ri := newRI(svcName, method, pretag, false)
+		initMs := 0
+		if pretag == "" && r.chance(50) {
+			initMs = 7000
+			c.count("call-with-own-timeout", 1)
+		}
+		ri := newRI(svcName, method, pretag, false, initMs)
 		ctx := rpcinfo.NewCtxWithRPCInfo(context.Background(), ri)
 		// the metadata reaches the routing through the default extractor (metainfo) or through a custom one given as an
 		// option - to the middleware and to the retry policy alike
@@ -297,7 +309,7 @@ func runC15(c *ctx) {
 				rx = append(rx, []interface{}{re, v, cre.MatchString(v)}) // the truth table covers every value the call carries
 			}
 		}
-		c.emit(obj{"op": step, "lsup": lsup, "nsup": nsup, "listener": lj, "named": nj, "pretag": pretag, "matchMethod": matchMethod,
+		c.emit(obj{"op": step, "lsup": lsup, "nsup": nsup, "listener": lj, "named": nj, "pretag": pretag, "initMs": initMs, "matchMethod": matchMethod,
 			"method": method, "md": mdl, "rx": rx, "obs": o})
 	}
 }
